@@ -276,6 +276,22 @@ func applyInjection(d *gen.Doc, k, site, variant int) *injection {
 				nt.Rels = []gen.Relation{{Name: "qq", Expr: leafZZ()}}
 			}
 			d.Types = append(d.Types, nt)
+			if variant%3 == 1 {
+				// the file also DEFINES the type, before both extensions (a file may define and extend one type)
+				plain := gen.TypeDef{Name: nt.Name}
+				if variant%2 == 1 {
+					plain.Rels = []gen.Relation{{Name: "pp", Expr: leafZZ()}}
+				}
+				already := false
+				for _, t := range d.Types {
+					if !t.Extend && t.Name == nt.Name {
+						already = true
+					}
+				}
+				if !already {
+					d.Types = append([]gen.TypeDef{plain}, d.Types...)
+				}
+			}
 			inj.posKey = fmt.Sprintf("type:%02d", len(d.Types)-1)
 			inj.msgHint = []string{"already extended"}
 			return inj
